@@ -953,3 +953,64 @@ func globDir(dir, pattern string, matches []string) ([]string, error) {
 	}
 	return matches, nil
 }
+
+// WriteAt writes at an offset without moving the handle offset (seek, write, seek back under
+// one simulated write operation: a fault or kill strikes it like any other write).
+func (h *File) WriteAt(b []byte, off int64) (int, error) {
+	if h == nil {
+		return 0, os.ErrInvalid
+	}
+	if h.real != nil {
+		passthroughRO("WriteAt", h.name)
+	}
+	if h.app {
+		return 0, errors.New("os: invalid use of WriteAt on file opened with O_APPEND")
+	}
+	saved := h.off
+	h.off = off
+	n, err := h.Write(b)
+	h.off = saved
+	return n, err
+}
+
+// Chmod changes the mode of the file (by path: the simulated tree keeps modes per inode).
+func (h *File) Chmod(mode fs.FileMode) error {
+	if h == nil {
+		return os.ErrInvalid
+	}
+	if h.real != nil {
+		passthroughRO("Chmod", h.name)
+	}
+	return Chmod(h.name, mode)
+}
+
+// ReadDir lists the directory the handle was opened on (n <= 0: all entries).
+func (h *File) ReadDir(n int) ([]fs.DirEntry, error) {
+	if h == nil {
+		return nil, os.ErrInvalid
+	}
+	if h.real != nil {
+		return h.real.ReadDir(n)
+	}
+	ents, err := ReadDir(h.name)
+	if err != nil {
+		return nil, err
+	}
+	if n > 0 && len(ents) > n {
+		ents = ents[:n]
+	}
+	return ents, nil
+}
+
+// Readdirnames lists the names of the directory the handle was opened on.
+func (h *File) Readdirnames(n int) ([]string, error) {
+	ents, err := h.ReadDir(n)
+	if err != nil {
+		return nil, err
+	}
+	names := make([]string, len(ents))
+	for i, e := range ents {
+		names[i] = e.Name()
+	}
+	return names, nil
+}
